@@ -48,6 +48,7 @@ pub fn check(r: &Runner, ctx: &mut Ctx, l: &mut Local, rec: &CaseRec) -> Result<
             Placement::End => "placement:end-abutting",
             Placement::Start => "placement:start-abutting",
             Placement::Interior(_) => "placement:interior",
+            Placement::Cross(_) => "placement:straddling-a-page-boundary",
         });
         if rec.cap == 0 {
             l.bump("capacity:0");
